@@ -8,7 +8,7 @@
    the parsing loop with attributes, hwloc_type_sscanf, the sanity checks, the
    default types, the memmove. *)
 From Coq Require Import NArith List.
-From HV Require Import Base.Bytes Gen.Tables Text.Synthetic Text.SyntheticProofs.
+From HV Require Import Base.Bytes Gen.Tables Text.Synthetic Text.SyntheticProofs Text.SyntheticBack.
 Import ListNotations.
 Local Open Scope N_scope.
 
@@ -27,6 +27,27 @@ Proof.
   destruct H as [[_ H]|[_ [H _]]]; discriminate.
 Qed.
 Print Assumptions synth_parse_safe.
+
+(* The WHOLE of hwloc_backend_synthetic_init (default attributes and
+   hwloc_synthetic_process_indexes included: explicit lists, x*y and type-based interleaving
+   with the loops[] array of capacity nr_loops+1, the level lookups by arity), for all
+   NUL-terminated descriptions: no byte outside the string or a keyword literal, no element
+   outside level[] or loops[], no use of an unassigned arity, every loop terminates.
+   Three arithmetic outcomes remain allowed because their impossibility is NOT proved here:
+   FDiv (a level width of 0 used as divisor: excluded in C by the overflow guard of 6af4733,
+   widths >= 1 is not an invariant of this proof), FAssert (assert(nbs): the product of loop
+   counts wrapping to 0) and FHang (the "unsigned j < total" loop for totals >= 2^32, which the
+   model does not run).  None of them was ever produced by the extracted model on the fixed tree. *)
+Theorem synth_parse_safe_full : forall s, nul_terminated s ->
+  match parse Cur s with
+  | Ret _ | Rej => True
+  | Fault f => f = FDiv \/ f = FAssert \/ f = FHang
+  end.
+Proof.
+  intros s Hn. pose proof (parse_safe_full Cur s eq_refl eq_refl eq_refl Hn) as H.
+  destruct (parse Cur s) as [sy| |f]; auto. destruct H as [[_ H]|H]; [discriminate|exact H].
+Qed.
+Print Assumptions synth_parse_safe_full.
 
 (* the boundary is reached: 126 levels below Machine without NUMA are accepted with all
    128 entries used; 125 levels too *)
